@@ -184,7 +184,7 @@ def build_harness(variant="san", extra_flags=(), extra_link=(), harness_files=No
         glob.glob(os.path.join(REPO, "src", "**", "*.hpp"), recursive=True) + \
         glob.glob(os.path.join(hdir, "*.hpp"))
     flags = SAN_FLAGS + list(extra_flags)
-    key = _tree_hash(cs + cpps + hsrc + hdrs, variant + " ".join(flags) + " ".join(extra_link))
+    key = _tree_hash(cs + cpps + hsrc + hdrs + [os.path.abspath(__file__)], variant + " ".join(flags) + " ".join(extra_link))
     out_dir = os.path.join(WORK, f"hb-{variant}-{key}")
     binp = os.path.join(out_dir, "sbh")
     with Lock("harness-" + variant):
@@ -201,7 +201,7 @@ def build_harness(variant="san", extra_flags=(), extra_link=(), harness_files=No
         for i, src in enumerate(cpps):
             jobs.append((["g++", "-std=gnu++11"] + flags + inc + ["-c", src, "-o", os.path.join(out_dir, f"x{i}.o")]))
         for i, src in enumerate(hsrc):
-            jobs.append((["g++", "-std=gnu++17"] + flags + inc + ["-c", src, "-o", os.path.join(out_dir, f"h{i}.o")]))
+            jobs.append((["g++", "-std=gnu++17"] + flags + ["-fno-sanitize=enum"] + inc + ["-c", src, "-o", os.path.join(out_dir, f"h{i}.o")]))
         logs = []
         ok = True
 
@@ -241,6 +241,18 @@ SAN_ENV = {
 }
 
 
+def _crash_summary(stderr):
+    """the sanitizer's headline plus the first frames inside the library"""
+    lines = stderr.split("\n")
+    keep = []
+    for i, l in enumerate(lines):
+        if "ERROR: AddressSanitizer" in l or "runtime error:" in l or "SUMMARY:" in l or "LeakSanitizer" in l:
+            keep.append(l.strip()[:300])
+        elif re.match(r"\s*#\d+ ", l) and ("/repo/" in l) and len(keep) < 12:
+            keep.append(l.strip()[:200])
+    return " || ".join(keep)[:2500]
+
+
 def _run_harness_chunk(binp, case_path, ans_path, ncases, env_extra=None):
     """Run the harness over a case file with restart-after-crash. Writes ans_path with exactly
     one line per case. Returns dict id->stderr excerpt for crashed cases."""
@@ -278,7 +290,7 @@ def _run_harness_chunk(binp, case_path, ans_path, ncases, env_extra=None):
                 continue  # watchdog answered for that case and ended the process: restart after it
             # the process ended before answering case `done`: it crashed there
             cid = ids[done]
-            crashes[cid] = (p.stderr or "")[-3000:] or f"exit status {p.returncode}"
+            crashes[cid] = _crash_summary(p.stderr or "") or f"exit status {p.returncode}"
             out.write(f"{cid} CRASH\n")
             done += 1
     return crashes
